@@ -122,7 +122,7 @@ class BARTMAP(BaseEstimator, BiclusterMixin):
             # Simple optimization to gain speed (inspect is slow)
             return self
         valid_params = self.get_params(deep=True)
-        local_params = dict()
+        local_params = dict(self.params)
 
         nested_params = defaultdict(dict)  # grouped by prefix
         for key, value in params.items():
